@@ -143,6 +143,9 @@ def Alg.inFragment : Alg → Bool
   | .filter e p _ _ => e.existsFree && p.inFragment
   | .extend p _ e _ => e.existsFree && p.inFragment
   | .values _ _ => true
+  | .project p _ => p.inFragment
+  | .graph _ p => p.inFragment
+  | .minus a b _ => a.inFragment && b.inFragment
   | _ => false
 
 def Query.pattern : Query → Alg
